@@ -60,7 +60,12 @@ func (b *BadMetrics) Add(metric []byte, msg []byte, err error) {
 }
 
 func (b *BadMetrics) manage() {
-	clean := time.NewTicker(b.maxAge / 10)
+	period := b.maxAge / 10
+	if period <= 0 {
+		// maxAge is too small to be divided further. don't let NewTicker panic
+		period = time.Nanosecond
+	}
+	clean := time.NewTicker(period)
 	for {
 		select {
 		case in := <-b.In:
